@@ -49,12 +49,23 @@ class TagPolicy(AbstractActorCriticPolicy):
     observation_space: object
     vtab: jax.Array  # trainable, one entry per sample tag
     lptab: jax.Array  # constant
+    # step recorder (through the entropy term, coefficient 1, plain SGD with lr = B): `cnt` goes up by one per gradient step,
+    # and a sample visited in step s adds 2^s to its entry of `etab` (steps 0..19) / 2^(s-20) to `etab2` (steps 20..39):
+    # after training the tables spell out WHICH gradient steps used each sample, i.e. the composition of every minibatch
+    etab: jax.Array
+    etab2: jax.Array
+    cnt: jax.Array
+    inv_b: float = eqx.field(static=True)
 
-    def __init__(self, N: int):
+    def __init__(self, N: int, B: int = 1):
         self.action_space = Discrete(N + 1)
         self.observation_space = Box(-1e6, 1e6, shape=(2,))
         self.vtab = jnp.zeros((N + 1,))
         self.lptab = jnp.zeros((N + 1,))
+        self.etab = jnp.zeros((N + 1,))
+        self.etab2 = jnp.zeros((N + 1,))
+        self.cnt = jnp.zeros(())
+        self.inv_b = 1.0 / B
 
     def reset(self, *, key):
         return SimPolicyState(jnp.array(0, dtype=int))
@@ -75,7 +86,11 @@ class TagPolicy(AbstractActorCriticPolicy):
         mism = (tag2 != tag) | (jnp.asarray(action).astype(int) != tag) | (state.k != tag) | (mtag != tag)
         value = self.vtab[tag] + 1024.0 * mism.astype(float)
         lp = jax.lax.stop_gradient(self.lptab[tag])
-        return state, value, lp, jnp.array(0.0)
+        c = jax.lax.stop_gradient(jnp.round(self.cnt)).astype(int)
+        w1 = jnp.where(c < 20, jnp.ldexp(1.0, jnp.clip(c, 0, 19)), 0.0)
+        w2 = jnp.where(c >= 20, jnp.ldexp(1.0, jnp.clip(c - 20, 0, 19)), 0.0)
+        entropy = self.etab[tag] * w1 + self.etab2[tag] * w2 + self.cnt * self.inv_b
+        return state, value, lp, entropy
 
 
 def tagged_buffer(n: int, T: int, rets, advs, lps) -> RolloutBuffer:
@@ -100,7 +115,7 @@ class Runner:
         vf = 0.5
         if cls["algo"] == "PPO":
             algo = PPO(num_envs=n, num_steps=T, num_epochs=cls["E"], num_batches=cls["nb"], normalize_advantages=False, clip_value_loss=False,
-                       entropy_loss_coefficient=0.0, value_loss_coefficient=vf)
+                       entropy_loss_coefficient=1.0, value_loss_coefficient=vf)
             self.B = algo.batch_size
         elif cls["algo"] == "A2C":
             algo = A2C(num_envs=n, num_steps=T, normalize_advantages=False, entropy_loss_coefficient=0.0, value_loss_coefficient=vf)
@@ -111,7 +126,12 @@ class Runner:
         # value loss = vf * mean((v - ret)^2) / 2  =>  dv_i = vf * (v_i - ret_i) / B per visit; lr makes the step (v - ret)/2
         self.lr = 0.5 * self.B / vf
         self.algo = eqx.tree_at(lambda a: a.optimizer, algo, optax.sgd(self.lr), is_leaf=lambda x: isinstance(x, optax.GradientTransformation))
-        self.policy0 = TagPolicy(N)
+        self.policy0 = TagPolicy(N, self.B)
+        # number of equally likely ordered minibatch compositions of one epoch, and the number of trainings after which "every
+        # epoch of every training had the same composition" has probability < 1e-12 on correct code
+        E, nb = cls.get("E", 1), N // self.B
+        self.ways = math.factorial(N) // (math.factorial(self.B) ** nb * math.factorial(N - nb * self.B))
+        self.k_needed = math.ceil(12.0 / ((E - 1) * math.log10(self.ways))) if (E >= 2 and self.ways > 1 and cls["algo"] == "PPO") else None
         self._train = eqx.filter_jit(lambda algo, policy, opt_state, buf, key: algo.train(policy, opt_state, buf, key=key))
         self._mkbuf = eqx.filter_jit(lambda rets, advs, lps: tagged_buffer(n, T, rets, advs, lps))
 
@@ -123,6 +143,7 @@ class Runner:
         n_ops = rng.randint(1, 3)
         if self.cls.get("E", 1) >= 3 and N % self.B and N >= 5:
             n_ops = 10  # enough trainings that "the same remainder dropped in every epoch of every training" has probability < 1e-13
+        n_ops = max(n_ops, self.k_needed or 0)
         return {"scenario": NAME, "cls": self.cls, "rets": rets, "advs": advs, "lps": lps, "ops": [{"op": "train", "key": rng.getrandbits(31)} for _ in range(n_ops)], "faults": []}
 
     def shrink_candidates(self, plan: dict):
@@ -148,6 +169,7 @@ class Runner:
         if E > 1:
             res.events["E.multi_epoch"] += 1
         visit_hist = []
+        comp_hist = []  # per training: did every epoch use the identical ordered minibatch composition?
         for op in plan["ops"]:
             policy = eqx.tree_at(lambda p: (p.vtab, p.lptab), self.policy0, (jnp.asarray(rets + 1.0, dtype=float), jnp.asarray(plan["lps"], dtype=float)))
             opt_state = self.algo.optimizer.init(eqx.filter(policy, eqx.is_inexact_array))
@@ -196,6 +218,32 @@ class Runner:
                     res.fail("C09", "row_intact", "advantage_field_misaligned", got=float(log["policy_loss"]), expected=want)
                 else:
                     res.ok("C09", "row_intact")
+            # composition of every gradient step, decoded from the step recorder (PPO only: the others take one full batch)
+            if self.algo_name == "PPO":
+                e1 = np.asarray(new_policy.etab, dtype=np.float64)[1:]
+                e2 = np.asarray(new_policy.etab2, dtype=np.float64)[1:]
+                S = E * nb
+                if np.any(np.abs(e1 - np.round(e1)) > 1e-3) or np.any(np.abs(e2 - np.round(e2)) > 1e-3) or np.any(e1 < 0) or np.any(e2 < 0) or S > 40:
+                    res.probes["step_recorder_unreadable"] += 1
+                else:
+                    bits = np.round(e1).astype(np.int64) | (np.round(e2).astype(np.int64) << 20)
+                    M = np.array([[(int(bits[i]) >> s_) & 1 for i in range(N)] for s_ in range(max(S, int(bits.max()).bit_length()))], dtype=int).reshape(-1, N)
+                    sizes = M.sum(axis=1)
+                    if np.array_equal(M.sum(axis=0), visits) and M.shape[0] == S:
+                        if np.any(sizes != B):
+                            res.fail("C09", "used_count", "minibatch_of_wrong_size", sizes=sizes.tolist(), B=B)
+                        else:
+                            res.ok("C09", "used_count")
+                        per_epoch = M.reshape(E, nb, N)
+                        if np.any(per_epoch.sum(axis=1) > 1):
+                            res.fail("C09", "at_most_once_per_epoch", "sample_in_two_minibatches_of_one_epoch", epoch=int(np.argmax(np.any(per_epoch.sum(axis=1) > 1, axis=1))))
+                        else:
+                            res.ok("C09", "at_most_once_per_epoch")
+                        if E >= 2:
+                            comp_hist.append(all(np.array_equal(per_epoch[0], per_epoch[e_]) for e_ in range(1, E)))
+                        tr.ev("steps", composition=["".join(map(str, row)) for row in M.tolist()])
+                    else:
+                        res.probes["step_recorder_disagrees_with_visit_count"] += 1
             if E >= 2 and N % B and np.all((visits == 0) | (visits == E)):
                 res.probes["same_remainder_dropped_every_epoch"] += 1
             elif E >= 2 and N % B:
@@ -208,6 +256,12 @@ class Runner:
         if E >= 3 and N % B and N >= 5 and len(visit_hist) >= 10:
             if all(np.all((vv == 0) | (vv == E)) for vv in visit_hist):
                 res.fail("C09", "fresh_shuffle_per_epoch", "same_samples_dropped_in_every_epoch", trainings=len(visit_hist), epochs=E, N=N, B=B)
+            else:
+                res.ok("C09", "fresh_shuffle_per_epoch")
+        # ... and, remainder or not, the minibatch COMPOSITION must not repeat in every epoch of every training
+        if self.k_needed and len(comp_hist) >= self.k_needed:
+            if all(comp_hist):
+                res.fail("C09", "fresh_shuffle_per_epoch", "every_epoch_replays_the_same_minibatches", trainings=len(comp_hist), epochs=E, N=N, B=B, compositions=self.ways)
             else:
                 res.ok("C09", "fresh_shuffle_per_epoch")
         return res
